@@ -222,7 +222,7 @@ pub fn run(data: &[u8], ctx: &mut Ctx) -> Outcome {
             let sealed_assertions = enc.assertions_with_predicate(known_values::HAS_RECIPIENT);
             if !sealed_assertions.is_empty() {
                 let pick = sealed_assertions[src.below(sealed_assertions.len())].clone();
-                let style = src.below(5);
+                let style = src.below(6);
                 // the digest of 'hasRecipient' may also belong to an element of the original envelope (its
                 // subject, say): obscuring "the predicate" would then obscure that element too
                 let hr = M::Known(5).digest();
@@ -243,12 +243,19 @@ pub fn run(data: &[u8], ctx: &mut Ctx) -> Outcome {
                         let annotated = Envelope::new_assertion(known_values::HAS_RECIPIENT, pick.as_object().unwrap().add_assertion(known_values::NOTE, "for the treasurer"));
                         ("annotated-sealed-message", nopanic!(ctx, enc.replace_assertion(pick.clone(), annotated).map_err(|x| x.to_string()), "held", "C10/held").unwrap_or(enc.clone()), true)
                     }
+                    5 => {
+                        // annotated AND redacted: 'hasRecipient': ELIDED ['note': ..] - that one message is
+                        // unreadable, the others are not
+                        let obj = pick.as_object().unwrap();
+                        let annotated = Envelope::new_assertion(known_values::HAS_RECIPIENT, obj.add_assertion(known_values::NOTE, "for the treasurer").elide_removing_target(&obj));
+                        ("annotated-sealed-message-redacted", nopanic!(ctx, enc.replace_assertion(pick.clone(), annotated).map_err(|x| x.to_string()), "held", "C10/held").unwrap_or(enc.clone()), false)
+                    }
                     2 => ("one-sealed-message-obscured", nopanic!(ctx, enc.elide_removing_target_with_action(&pick.as_object().unwrap(), &action), "held", "C10/held"), false),
                     _ => ("one-hasRecipient-assertion-obscured", nopanic!(ctx, enc.elide_removing_target_with_action(&pick, &action), "held", "C10/held"), false),
                 };
                 ctx.class(&format!("held:{}", name));
                 let hkey = format!("C10/held/{}", name);
-                if style != 0 && style != 4 {
+                if style != 0 && style != 4 && style != 5 {
                     check!(ctx, changed.digest() == enc.digest(), "held", &hkey, "obscuring changed the digest");
                 }
                 let mut opened = 0usize;
